@@ -93,7 +93,12 @@ Init == /\ F \in UpTo(K)
         /\ L = {} /\ trail = <<>> /\ confl = NONE /\ status = "Indet" /\ nlearn = 0 /\ nrestart = 0
 
 Forced(c, l) == l \in Lits(c) /\ Undef(l) /\ c.w[l] > Slack(c)
-NoUnit  == \A c \in DB : Slack(c) >= 0 => \A l \in Lits(c) : ~Forced(c, l)
+(* Propagation is complete for clauses and cardinality constraints (every literal they force is on  *)
+(* the trail before the next decision).  For constraints with weights the code watches a subset of  *)
+(* the literals and may decide while such a constraint still forces a literal: that is incomplete,  *)
+(* not unsound (what matters is that a falsified constraint is never overlooked: NoConfl)           *)
+IsCard(c) == \A l \in Lits(c) : c.w[l] = 1
+NoUnit  == \A c \in DB : (IsCard(c) /\ Slack(c) >= 0) => \A l \in Lits(c) : ~Forced(c, l)
 NoConfl == \A c \in DB : Slack(c) >= 0
 
 Propagate(c, l) == /\ status = "Indet" /\ confl = NONE /\ c \in DB
